@@ -31,10 +31,10 @@ func init() {
 	core.Register(&core.Prop{
 		ID:    "C17",
 		Level: "exploration",
-		Rule: "built with -race. For each shared-object kind (type-1, type-2, type-3, type-5 issuer, generic batch issuer, *ecdsa.PrivateKey/PublicKey, ed25519.PrivateKey) a FRESH object (fresh VOPRF key object, so lazily initialised state is untouched) is used by G goroutines released from a barrier, each running a seeded mix of Evaluate/EvaluateBatch/Verify/TokenKeyID/TokenKey/Sign/Verify/Blind* with its own arguments; repeated R times per kind, kinds rotated over worker processes so that package-level sync.Once state is first touched concurrently. " +
+		Rule: "built with -race. For each shared-object kind (type-1, type-2, type-3, type-5 issuer, generic batch issuer, *ecdsa.PrivateKey/PublicKey, ed25519.PrivateKey) a FRESH object (fresh VOPRF key object, so lazily initialised state is untouched) is used by G goroutines released from a barrier, each running a seeded mix of Evaluate/EvaluateBatch/Verify/TokenKeyID/TokenKey/Sign/Verify/Blind* with its own arguments (the ECDSA kinds use keys on two to four different curves at the same moment, the burst kind signs 40 digests back to back per goroutine); repeated R times per kind, kinds rotated over worker processes so that package-level sync.Once state is first touched concurrently. " +
 			"Oracle: zero race-detector reports (GORACE log, de-duplicated by the outermost pat-go frames of both stacks) and every call's result satisfies its sequential oracle (responses finalize under the caller's own request state to a token valid under the reference verifier, Verify verdicts as expected for valid and bit-flipped tokens, key ids equal the value computed on a second object, signatures verify under the standard library, blinded keys equal the sequential result). " +
 			"distinct_nontrivial = fresh objects on which at least two goroutines were observed inside pat-go at the same time (atomic in-flight counter)",
-		Floors:      []string{"objects_with_overlap", "evaluate_results_ok", "verify_results_ok", "keyid_results_ok", "sign_results_ok", "blind_results_ok", "batch_results_ok", "kind_type1", "kind_type2", "kind_type3", "kind_type5", "kind_batch", "kind_ecdsa", "kind_ed25519"},
+		Floors:      []string{"objects_with_overlap", "evaluate_results_ok", "verify_results_ok", "keyid_results_ok", "sign_results_ok", "blind_results_ok", "batch_results_ok", "kind_type1", "kind_type2", "kind_type3", "kind_type5", "kind_batch", "kind_ecdsa", "kind_ecdsa-burst", "kind_ed25519"},
 		Assumptions: []string{"the race detector reports conflicting accesses it observes; schedules that did not run are not judged", "each call has its own per-call arguments, as the statement requires"},
 		Race:        true,
 		Run:         runC17,
@@ -116,7 +116,7 @@ func (r *c17Run) finish(kind string, rep int) {
 func runC17(c *core.Ctx) {
 	G := c.Pick(16, 32)
 	R := c.Pick(30, 800)
-	kinds := []string{"type1", "ed25519", "type5", "ecdsa", "type2", "batch", "type3"}
+	kinds := []string{"type1", "ed25519", "type5", "ecdsa", "type2", "batch", "type3", "ecdsa-burst"}
 	setup := c.Rng("setup")
 	k1seed, k5seed := setup.Bytes(32), setup.Bytes(32)
 	rk := RSAKeys()
@@ -149,6 +149,8 @@ func runC17(c *core.Ctx) {
 				c17ECDSA(run, G, seeds, rep)
 			case "ed25519":
 				c17Ed25519(run, G, seeds)
+			case "ecdsa-burst":
+				c17ECDSABurst(run, seeds, rep)
 			}
 			run.finish(kind, rep)
 			if rep == 0 {
@@ -403,6 +405,10 @@ func c17Type3(run *c17Run, G int, seeds [][]byte, key interface{}) {
 	iss.AddOrigin("origin.example")
 	iss.AddOrigin("other.example")
 	wantID := type2.NewBasicPublicIssuer(rk).TokenKeyID()
+	indexD := map[string]*big.Int{}
+	for _, o := range []string{"origin.example", "other.example"} {
+		indexD[o] = new(big.Int).Set(iss.OriginIndexKey(o).D)
+	}
 	nameKey := iss.NameKey()
 	wantNK := nameKey.Marshal()
 	run.conc(G, func(gi int) {
@@ -438,8 +444,18 @@ func c17Type3(run *c17Run, G int, seeds [][]byte, key interface{}) {
 					break
 				}
 				tok, err := st.FinalizeToken(resp)
-				if err != nil || ref.VerifyRSAToken(&rk.PublicKey, ref.TokenBytes(3, nonce, ch, wantID, nil), tok.Authenticator) != nil || len(brk) != 49 {
+				// the second return value must be this request's key blinded with THIS origin's index key
+				qx, qy, okq := ref.ECDecompress(curve, st.Request().RequestKey)
+				var wantBrk []byte
+				if okq {
+					ko := ref.ECDSABlindScalar(curve, indexD[origin], t3Ctx("IssuerBlind"))
+					bx, by := ref.ECMul(curve, qx, qy, ko)
+					wantBrk = ref.ECCompress(curve, bx, by)
+				}
+				if err != nil || ref.VerifyRSAToken(&rk.PublicKey, ref.TokenBytes(3, nonce, ch, wantID, nil), tok.Authenticator) != nil {
 					run.fail(fmt.Sprintf("response does not finalize to a valid token: %v", err))
+				} else if !bytes.Equal(brk, wantBrk) {
+					run.fail("Evaluate returned a blinded request key computed with another origin's index key (or otherwise wrong) under concurrent use")
 				} else {
 					c.Class("evaluate_results_ok")
 				}
@@ -502,7 +518,9 @@ func c17Batch(run *c17Run, G int, seeds [][]byte, keyVal *oprf.PrivateKey, key i
 			return
 		}
 		bad := &type1.BasicPrivateTokenRequest{TokenKeyID: s1.Request().TokenKeyID, BlindedReq: bytes.Repeat([]byte{0xff}, 49)}
-		br, err := batched.NewBasicClient().CreateTokenRequest([]tokens.TokenRequestWithDetails{s1.Request(), bad, s2.Request()})
+		// a request of a supported type whose truncated key id no configured issuer serves (a different one per goroutine)
+		unknown := &type1.BasicPrivateTokenRequest{TokenKeyID: unknownID(byte(gi), ids[0], ids[1]), BlindedReq: clone(s1.Request().BlindedReq)}
+		br, err := batched.NewBasicClient().CreateTokenRequest([]tokens.TokenRequestWithDetails{s1.Request(), bad, s2.Request(), unknown})
 		if err != nil {
 			run.fail(err.Error())
 			return
@@ -516,7 +534,7 @@ func c17Batch(run *c17Run, G int, seeds [][]byte, keyVal *oprf.PrivateKey, key i
 				continue
 			}
 			es, err := batched.UnmarshalBatchedTokenResponses(out)
-			if err != nil || len(es) != 3 || len(es[1]) != 0 || len(es[0]) == 0 || len(es[2]) == 0 {
+			if err != nil || len(es) != 4 || len(es[1]) != 0 || len(es[3]) != 0 || len(es[0]) == 0 || len(es[2]) == 0 {
 				run.fail(fmt.Sprintf("batch response wrong (entry lengths %v): %v", entryLens(es), err))
 				continue
 			}
@@ -532,6 +550,15 @@ func c17Batch(run *c17Run, G int, seeds [][]byte, keyVal *oprf.PrivateKey, key i
 	})
 }
 
+// unknownID returns a truncated key id different from the last bytes of the two configured ids.
+func unknownID(start byte, a, b []byte) byte {
+	x := start
+	for x == a[len(a)-1] || x == b[len(b)-1] {
+		x++
+	}
+	return x
+}
+
 func entryLens(es [][]byte) []int {
 	var out []int
 	for _, e := range es {
@@ -542,22 +569,35 @@ func entryLens(es [][]byte) []int {
 
 func c17ECDSA(run *c17Run, G int, seeds [][]byte, rep int) {
 	c := run.c
-	curve := c12Curves()[rep%4]
-	N := curve.Params().N
-	w := (N.BitLen() + 7) / 8
-	kr := core.NewRand(int64(rep), "c17ecdsa")
-	d := ScalarBytes(kr, N, w)
-	key, err := ecdsa.CreateKey(curve, d)
-	must(err)
-	bk, err := ecdsa.CreateKey(curve, ScalarBytes(kr, N, w))
-	must(err)
-	px, py := ref.ECBaseMul(curve, new(big.Int).SetBytes(d))
+	// two signing keys on two different curves, each shared by half of the goroutines: package-level state
+	// keyed by curve is exercised from both sides at once
+	type ck struct {
+		curve          elliptic.Curve
+		key, bk        *ecdsa.PrivateKey
+		px, py, bx, by *big.Int
+	}
 	ctx := []byte("ctx")
-	k := ref.ECDSABlindScalar(curve, bk.D, ctx)
-	bx, by := ref.ECMul(curve, px, py, k)
+	mk := func(ci int) *ck {
+		curve := c12Curves()[ci%4]
+		N := curve.Params().N
+		w := (N.BitLen() + 7) / 8
+		kr := core.NewRand(int64(rep*7+ci), "c17ecdsa")
+		d := ScalarBytes(kr, N, w)
+		key, err := ecdsa.CreateKey(curve, d)
+		must(err)
+		bk, err := ecdsa.CreateKey(curve, ScalarBytes(kr, N, w))
+		must(err)
+		px, py := ref.ECBaseMul(curve, new(big.Int).SetBytes(d))
+		k := ref.ECDSABlindScalar(curve, bk.D, ctx)
+		bx, by := ref.ECMul(curve, px, py, k)
+		return &ck{curve, key, bk, px, py, bx, by}
+	}
+	pair := []*ck{mk(rep), mk(rep + 1 + rep%3)}
 	run.conc(G, func(gi int) {
 		r := core.NewRand(int64(gi), string(seeds[gi]))
 		digest := r.Bytes(32)
+		k := pair[gi%2]
+		curve, key, bk, px, py, bx, by := k.curve, k.key, k.bk, k.px, k.py, k.bx, k.by
 		for j := 0; j < 5; j++ {
 			switch (j + gi) % 5 {
 			case 0:
@@ -565,7 +605,7 @@ func c17ECDSA(run *c17Run, G int, seeds [][]byte, rep int) {
 				rr, ss, err := ecdsa.Sign(rand.Reader, key, digest)
 				run.leave()
 				if err != nil || !stdECDSAVerify(curve, px, py, digest, rr, ss) {
-					run.fail("Sign produced an invalid signature")
+					run.fail("Sign produced an invalid signature on " + curve.Params().Name)
 				} else {
 					c.Class("sign_results_ok")
 				}
@@ -575,7 +615,7 @@ func c17ECDSA(run *c17Run, G int, seeds [][]byte, rep int) {
 				ok := err == nil && ecdsa.VerifyASN1(&key.PublicKey, digest, sig)
 				run.leave()
 				if !ok {
-					run.fail("PrivateKey.Sign/VerifyASN1 failed")
+					run.fail("PrivateKey.Sign/VerifyASN1 failed on " + curve.Params().Name)
 				} else {
 					c.Class("sign_results_ok")
 				}
@@ -584,7 +624,7 @@ func c17ECDSA(run *c17Run, G int, seeds [][]byte, rep int) {
 				rr, ss, err := ecdsa.BlindKeySignWithContext(rand.Reader, key, bk, digest, ctx)
 				run.leave()
 				if err != nil || !stdECDSAVerify(curve, bx, by, digest, rr, ss) {
-					run.fail("BlindKeySignWithContext produced an invalid signature")
+					run.fail("BlindKeySignWithContext produced an invalid signature on " + curve.Params().Name)
 				} else {
 					c.Class("sign_results_ok")
 				}
@@ -597,7 +637,7 @@ func c17ECDSA(run *c17Run, G int, seeds [][]byte, rep int) {
 				}
 				run.leave()
 				if err != nil || bp.X.Cmp(bx) != 0 || bp.Y.Cmp(by) != 0 || up.X.Cmp(px) != 0 {
-					run.fail("Blind/Unblind differ from the sequential result")
+					run.fail("Blind/Unblind differ from the sequential result on " + curve.Params().Name)
 				} else {
 					c.Class("blind_results_ok")
 				}
@@ -609,7 +649,7 @@ func c17ECDSA(run *c17Run, G int, seeds [][]byte, rep int) {
 				ok2 := ecdsa.Verify(&key.PublicKey, digest, rr, bad)
 				run.leave()
 				if !ok1 || ok2 {
-					run.fail("Verify verdicts wrong under concurrency")
+					run.fail("Verify verdicts wrong under concurrency on " + curve.Params().Name)
 				} else {
 					c.Class("verify_results_ok")
 				}
@@ -618,11 +658,57 @@ func c17ECDSA(run *c17Run, G int, seeds [][]byte, rep int) {
 	})
 }
 
+// c17ECDSABurst: four curves, three goroutines per curve sharing that curve's key, each signing a burst of
+// digests back to back; every signature must verify under crypto/ecdsa. Dense signing on several curves at
+// once is what exposes unsynchronised or check-then-act package-level state keyed by curve.
+func c17ECDSABurst(run *c17Run, seeds [][]byte, rep int) {
+	c := run.c
+	const perCurve, burst = 3, 40
+	type ck struct {
+		curve  elliptic.Curve
+		key    *ecdsa.PrivateKey
+		px, py *big.Int
+	}
+	var keys []*ck
+	for ci, curve := range c12Curves() {
+		N := curve.Params().N
+		kr := core.NewRand(int64(rep*11+ci), "c17burst")
+		d := ScalarBytes(kr, N, (N.BitLen()+7)/8)
+		key, err := ecdsa.CreateKey(curve, d)
+		must(err)
+		px, py := ref.ECBaseMul(curve, new(big.Int).SetBytes(d))
+		keys = append(keys, &ck{curve, key, px, py})
+	}
+	c.Eval(int64(len(keys) * perCurve * burst))
+	run.conc(len(keys)*perCurve, func(gi int) {
+		k := keys[gi%len(keys)]
+		r := core.NewRand(int64(gi), string(seeds[gi%len(seeds)]))
+		okAll := true
+		for i := 0; i < burst; i++ {
+			digest := r.Bytes(32)
+			run.enter()
+			rr, ss, err := ecdsa.Sign(rand.Reader, k.key, digest)
+			run.leave()
+			if err != nil || !stdECDSAVerify(k.curve, k.px, k.py, digest, rr, ss) {
+				run.fail(fmt.Sprintf("Sign on %s while other goroutines sign on other curves produced a signature crypto/ecdsa rejects (err=%v)", k.curve.Params().Name, err))
+				okAll = false
+				break
+			}
+		}
+		if okAll {
+			c.Class("sign_results_ok")
+			c.Class("burst_signatures_ok")
+		}
+	})
+}
+
 func c17Ed25519(run *c17Run, G int, seeds [][]byte) {
 	c := run.c
 	seed := seeds[0]
-	priv := ed25519.NewKeyFromSeed(seed)
+	// keys come from the standard library (same bytes): the fork's own first operation - and with it the
+	// first touch of its lazily built tables - happens inside the goroutines
 	spriv := stded.NewKeyFromSeed(seed)
+	priv := ed25519.PrivateKey(append([]byte{}, spriv...))
 	pub := []byte(spriv[32:])
 	blind := seeds[1%len(seeds)]
 	ctx := []byte("ctx")
@@ -681,4 +767,13 @@ func c17Ed25519(run *c17Run, G int, seeds [][]byte) {
 	})
 }
 
-func keyRSA(k interface{}) *rsa.PrivateKey { return k.(*rsa.PrivateKey) }
+// keyRSA returns a NEW private key object with the same value and no precomputed CRT values, as a key
+// assembled by a caller from its components would be (the fixtures are precomputed at load time).
+func keyRSA(k interface{}) *rsa.PrivateKey {
+	o := k.(*rsa.PrivateKey)
+	primes := make([]*big.Int, len(o.Primes))
+	for i, p := range o.Primes {
+		primes[i] = new(big.Int).Set(p)
+	}
+	return &rsa.PrivateKey{PublicKey: rsa.PublicKey{N: new(big.Int).Set(o.N), E: o.E}, D: new(big.Int).Set(o.D), Primes: primes}
+}
